@@ -1,10 +1,15 @@
 /-
 C12 (T4, second batch) — helper lemmas and property theorems for the access programs of
 `Model/C12Kernels2.lean` (dilate, rank_filter, template_match, cooccurence, distance, borders, thin,
-zoom_shift): confinement, roles within the arity, the generic independence theorem over arbitrary
-role-level programs, value ties, non-vacuity.
-
-The theorems named `C12_…` at the end are written as they belong into `Properties/C12.lean`.
+zoom_shift):
+ * roles within the arity (`rolesOk_iff`, `logFold_forall_steps`, one `…_rolesOk` per kernel, `kernel2_rolesOk`,
+   `mkStep_resolved`),
+ * value ties: `templateMatch_solo_value` (`C07.tmAt`), `rank_solo_value` (`C07.rankAt`; `block_solo`,
+   `phase_value`), `dilate_solo_value` (`C01.dilateModel`; scatter invariant `DilInv`, `dilate_step_inv`),
+   `cooccurence_solo_value` (`C19.coocModel`; `CoocInv`, `cooc_log_inv`, `boxPos_eq_allPos`),
+   `borders_solo_value` (`C13.bordersModel`; `step_solo`, `bordersReads_spec`),
+ * the property theorems `C12_…` (after `end Mahotas.C12`), written as they belong into `Properties/C12.lean`,
+ * non-vacuity examples (`namespace Mahotas.C12.Examples2`).
 -/
 import Mahotas.Proofs.C12Kernels
 import Mahotas.Model.C12Kernels2
@@ -38,7 +43,7 @@ theorem rolesOk_iff (ar : Nat × Nat) (r : RStep) :
     cases hr : l.role <;> simp [hr, Role.ok] at this ⊢ <;> exact this
 
 /-- a property of all steps the logger can emit holds for every step of the logged fold -/
-theorem logFold_forall {σ ι : Type} (f : σ → ι → σ) (lg : σ → ι → List RStep) (P : RStep → Prop)
+theorem logFold_forall_steps {σ ι : Type} (f : σ → ι → σ) (lg : σ → ι → List RStep) (P : RStep → Prop)
     (h : ∀ s x, ∀ r ∈ lg s x, P r) : ∀ (xs : List ι) (s : σ), ∀ r ∈ logFold f lg s xs, P r := by
   intro xs
   induction xs with
@@ -220,7 +225,7 @@ theorem distance_rolesOk (wo : Bool) (fo : Array Int × Array Int) (d0 d1 : Nat)
   split at hr
   · simp at hr
   · rcases List.mem_append.1 hr with hr | hr <;>
-      exact logFold_forall _ _ (fun r => r.rolesOk (0, 6) = true)
+      exact logFold_forall_steps _ _ (fun r => r.rolesOk (0, 6) = true)
         (fun s x r hr => dtLine_rolesOk _ _ _ _ _ r hr) _ _ r hr
 
 theorem borders_rolesOk (m : Mode) (vA vOut vBc : C08.View) (bc : Array Int) (mA : Int → Int) :
@@ -268,7 +273,7 @@ theorem thinLoop_rolesOk (vA vB : C08.View) (fuel : Nat) :
     rcases hr with rfl | rfl | hr | hr
     · roles_lit
     · roles_lit
-    · exact logFold_forall _ _ (fun r => r.rolesOk (0, 4) = true)
+    · exact logFold_forall_steps _ _ (fun r => r.rolesOk (0, 4) = true)
         (fun s x r hr => thinPass_rolesOk vA vB s x r hr) _ _ r hr
     · split at hr
       · simp at hr
@@ -735,7 +740,7 @@ theorem scatter_eq (vOut : C08.View) (s : List Nat)
   rw [unravelI_toNat, hvis i hi, hvis _ (C01.ravelI_lt s q hq), h2]
   omega
 
-theorem getD_setIfInBounds (out : Array Int) (idx j : Nat) (x d : Int) (hidx : idx < out.size) :
+theorem getD_setIfInBounds_ite (out : Array Int) (idx j : Nat) (x d : Int) (hidx : idx < out.size) :
     (out.setIfInBounds idx x).getD j d = if j = idx then x else out.getD j d := by
   by_cases h : j = idx
   · subst h; simp [Array.getD_eq_getD_getElem?, hidx]
@@ -818,14 +823,14 @@ theorem dilate_step_inv (calls : List Call) (aA aBc aOut aFd : Nat) (dt : DT) (v
       · simp [hvl]
       · simp only [hvl, if_false]
         by_cases hgt : dilateAdd dt v jkh.2.2 > out.getD (ravelI vA.shape q) dt.lo
-        · rw [if_pos hgt, if_pos hgt, getD_setIfInBounds _ _ _ _ _ (by omega), if_pos rfl]
+        · rw [if_pos hgt, if_pos hgt, getD_setIfInBounds_ite _ _ _ _ _ (by omega), if_pos rfl]
         · rw [if_neg hgt, if_neg hgt]
     · rw [if_neg (fun h => hjq (hiff.1 h)), hout j hj]
       by_cases hvl : v = dt.lo
       · simp [hvl]
       · simp only [hvl, if_false]
         split
-        · rw [getD_setIfInBounds _ _ _ _ _ (by omega), if_neg hjq]
+        · rw [getD_setIfInBounds_ite _ _ _ _ _ (by omega), if_neg hjq]
         · rfl
   · intro a
     rw [hval, if_neg (toLoc_ne_of_arr calls _ _ (by simpa using hA1)), hin]
